@@ -188,6 +188,22 @@ def check_case(case, col=None):
         os.write(w, p)
         written[0] += p
 
+    def settle():
+        # a write to the slave side becomes readable on the master from a kernel worker, not at once: "written
+        # before the call" only means "waiting in the descriptor" once the master's queue holds it
+        import fcntl
+        import struct
+        import termios
+        got = b''.join([(ch.encode('utf-8') if text_mode else ch) for k in sorted(log.chunks) for ch in log.chunks[k]])
+        held = len(sp._decoder.getstate()[0]) if text_mode else 0
+        want = len(written[0]) - len(got) - held
+        t_end = time.time() + 3.0
+        while time.time() < t_end:
+            if struct.unpack('i', fcntl.ioctl(r, termios.FIONREAD, b'\0\0\0\0'))[0] >= min(want, 4000):
+                return True
+            time.sleep(0.0005)
+        return False
+
     def close_w():
         if w_open[0]:
             os.close(w)
@@ -199,6 +215,8 @@ def check_case(case, col=None):
             for p in split_pieces(c['pre'], c['cut_chars']):
                 if p and w_open[0]:
                     put(p)
+            if case.get('kind') == 'pty' and w_open[0] and not settle():
+                return 'unsettled'
             if c['eof'] == 'pre':
                 close_w()
             has_data = any(c['pre']) or any(any(g) for g in c['during']) or c['eof']
@@ -269,9 +287,10 @@ def check_case(case, col=None):
                 break
         log.cur = 'end'
 
+    unsettled = False
     try:
         with guard('async/sync history on fdspawn', allow=(EOF, TIMEOUT)):
-            loop.run_until_complete(history())
+            unsettled = loop.run_until_complete(history()) == 'unsettled'
     finally:
         try:
             if sp.async_pw_transport:
@@ -285,6 +304,12 @@ def check_case(case, col=None):
             os.close(r)
         except OSError:
             pass
+    if unsettled:
+        # the kernel had not moved the text to the reading side within 3 s: nothing can be said about this history
+        if col is not None:
+            col.label('discarded:pty-unsettled')
+            col.case(case, False)
+        return
     # ---- twin replay on the blocking implementation
     clock = scripted.VirtualClock()
     tkw = {'maxread': 1 << 30, 'timeout': 5}
